@@ -3,7 +3,7 @@ use std::collections::BTreeMap;
 use marrow::array::{Array, DecimalArray, PrimitiveArray};
 
 use crate::internal::{
-    error::{set_default, try_, Context, ContextSupport, Result},
+    error::{fail, set_default, try_, Context, ContextSupport, Result},
     utils::{
         array_ext::{ArrayExt, ScalarArrayExt},
         decimal::{self, DecimalParser},
@@ -52,6 +52,21 @@ impl DecimalBuilder {
         self.array.is_nullable()
     }
 
+    /// Truncate the scaled float and check that it fits into the precision
+    fn check_scaled_float(&self, scaled: f64) -> Result<i128> {
+        // 2^127, the first float not representable as i128
+        if !scaled.is_finite() || scaled.abs() >= 170141183460469231731687303715884105728.0 {
+            fail!("Invalid decimal: the float value is not finite or out of range");
+        }
+        let val = scaled as i128;
+        if let Some(limit) = 10_u128.checked_pow(self.precision as u32) {
+            if val.unsigned_abs() >= limit {
+                fail!("Invalid decimal: not enough precision");
+            }
+        }
+        Ok(val)
+    }
+
     pub fn into_array(self) -> Result<Array> {
         Ok(Array::Decimal128(DecimalArray {
             precision: self.precision,
@@ -79,11 +94,19 @@ impl SimpleSerializer for DecimalBuilder {
     }
 
     fn serialize_f32(&mut self, v: f32) -> Result<()> {
-        try_(|| self.array.push_scalar_value((v * self.f32_factor) as i128)).ctx(self)
+        try_(|| {
+            let val = self.check_scaled_float((v * self.f32_factor) as f64)?;
+            self.array.push_scalar_value(val)
+        })
+        .ctx(self)
     }
 
     fn serialize_f64(&mut self, v: f64) -> Result<()> {
-        try_(|| self.array.push_scalar_value((v * self.f64_factor) as i128)).ctx(self)
+        try_(|| {
+            let val = self.check_scaled_float(v * self.f64_factor)?;
+            self.array.push_scalar_value(val)
+        })
+        .ctx(self)
     }
 
     fn serialize_str(&mut self, v: &str) -> Result<()> {
